@@ -148,6 +148,7 @@ mkunaryexpr(enum tokenkind op, struct expr *base)
 		if (base->kind == EXPRUNARY && base->op == TBAND) {
 			type = base->type->base;
 			expr = base->base;
+			expr->qual = base->type->qual;
 			expr->type = type;
 		} else {
 			expr = mkexpr(EXPRUNARY, base->type->base, base);
